@@ -622,7 +622,7 @@ def tstr(t, depth=0):
         return s
     if k == "call":
         return "%s(%s)" % ((t[1] or "?").split("::")[-1] if t[1] else "?", ", ".join(tstr(a, depth + 1) for a in t[2]))
-    if k == "bin":
+    if k == "bin" or k == "cmp":
         return "%s(%s, %s)" % (t[1], tstr(t[2], depth + 1), tstr(t[3], depth + 1))
     if k == "un":
         return "%s(%s)" % (t[1], tstr(t[2], depth + 1))
@@ -651,7 +651,7 @@ def strip_refs(t):
 def subterms(t):
     yield t
     k = t[0]
-    if k in ("bin",):
+    if k in ("bin", "cmp"):
         yield from subterms(t[2])
         yield from subterms(t[3])
     elif k in ("un", "cast"):
@@ -723,3 +723,107 @@ def term_places(t):
         if o.get("k") in ("copy", "move"):
             out.append(o["p"])
     return out
+
+
+# ---------------------------------------------------------------------------------------
+# term pattern matching
+
+
+def tmatch(t, pat, env=None):
+    """Structural match of term `t` against `pat`.
+    Pattern language: '_' matches anything; '$x' captures (must be equal on re-use);
+    ('call', name_suffix, [arg pats]) ; ('call', name_suffix) any args;
+    ('place', base_pat, proj tuple) exact projection names ('*' deref, field names);
+    ('c', value) constant value; ('c', value, def_suffix);
+    ('bin', op, l, r); ('un', op, x); ('cast', x) (any type); ('ref', x); ('agg', name_suffix, [ops]);
+    ('arg', name); ('var', name); ('any', p1, p2, ...) alternatives; ('deref*', p) strips refs/derefs.
+    Returns env dict or None."""
+    if env is None:
+        env = {}
+    if pat == "_":
+        return env
+    if isinstance(pat, str) and pat.startswith("$"):
+        if pat in env:
+            return env if env[pat] == t else None
+        e2 = dict(env)
+        e2[pat] = t
+        return e2
+    k = pat[0]
+    if k == "any":
+        for p in pat[1:]:
+            r = tmatch(t, p, env)
+            if r is not None:
+                return r
+        return None
+    if k == "deref*":
+        return tmatch(strip_refs(t), pat[1], env)
+    if k == "cast":
+        if t[0] != "cast":
+            return None
+        return tmatch(t[2], pat[1], env)
+    if k == "cast?":
+        while t[0] == "cast":
+            t = t[2]
+        return tmatch(t, pat[1], env)
+    if t[0] != k:
+        return None
+    if k == "c":
+        if pat[1] != "_" and t[1] != pat[1]:
+            return None
+        if len(pat) > 2 and not (t[2] and path_matches(t[2], pat[2])):
+            return None
+        return env
+    if k == "arg" or k == "var":
+        return env if (pat[1] == "_" or t[2] == pat[1]) else None
+    if k == "call":
+        if not (t[1] and (pat[1] == "_" or path_matches(t[1], pat[1]))):
+            return None
+        if len(pat) > 2:
+            if len(pat[2]) != len(t[2]):
+                return None
+            for a, p in zip(t[2], pat[2]):
+                env = tmatch(a, p, env)
+                if env is None:
+                    return None
+        return env
+    if k == "place":
+        if len(pat) > 2 and tuple(pat[2]) != tuple(t[2]):
+            return None
+        return tmatch(t[1], pat[1], env)
+    if k == "bin":
+        if pat[1] != "_" and t[1] != pat[1]:
+            return None
+        env = tmatch(t[2], pat[2], env)
+        if env is None:
+            return None
+        return tmatch(t[3], pat[3], env)
+    if k == "un":
+        if pat[1] != "_" and t[1] != pat[1]:
+            return None
+        return tmatch(t[2], pat[2], env)
+    if k == "ref" or k == "discr":
+        return tmatch(t[1], pat[1], env)
+    if k == "agg":
+        nm = t[2] or t[1]
+        if pat[1] != "_" and not path_matches(nm, pat[1]):
+            return None
+        if len(pat) > 2:
+            if len(pat[2]) != len(t[3]):
+                return None
+            for a, p in zip(t[3], pat[2]):
+                env = tmatch(a, p, env)
+                if env is None:
+                    return None
+        return env
+    if k == "fn":
+        return env if path_matches(t[1], pat[1]) else None
+    return env if t == pat else None
+
+
+def find_sub(t, pat):
+    """First subterm of t matching pat -> env or None."""
+    for s in subterms(t):
+        r = tmatch(s, pat)
+        if r is not None:
+            return r
+    return None
